@@ -91,7 +91,9 @@ Inductive op :=
 | OCreate (q : create_req)                   (* POST /api/create *)
 | OCopy (src dst : name)                     (* POST /api/copy *)
 | ODelete (n : name)                         (* DELETE /api/delete *)
-| OPull (n : name) (sv : option served)      (* POST /api/pull; None: the registry has no such manifest *)
+| OPull (n : name) (sv : option served) (ord : list N)
+    (* POST /api/pull; None: the registry has no such manifest; [ord]: the order in which Go's map iteration
+       presents the replaced layers to deleteUnusedLayers (blob names; any list: names not listed come last) *)
 | OStartup.                                  (* the start-up sequence of server.Serve *)
 
 Inductive result := ROk | RNotFound | RErr.
@@ -362,8 +364,13 @@ Section Ops.
                                | None => r
                                end) dm r.
 
+  (** deleteMap is a Go map: its iteration order is arbitrary *)
+  Definition reorder (ord : list N) (dm : list digest) : list digest :=
+    flat_map (fun h => filter (fun d => dhex d =? h) dm) ord
+    ++ filter (fun d => negb (existsb (fun h => dhex d =? h) ord)) dm.
+
   (** PullHandler + PullModel against an honest-or-not registry *)
-  Definition op_pull_gen (gen : list name -> name -> name) (pt : name -> name) (s : store) (n : name) (sv : option served) : run * result :=
+  Definition op_pull_gen (gen : list name -> name -> name) (pt : name -> name) (s : store) (n : name) (sv : option served) (ord : list N) : run * result :=
     let r0 := init s in
     let n' := pt (gen (readable_names s) n) in
     let dm := match mget n' s with
@@ -380,7 +387,7 @@ Section Ops.
         if negb ok then (r2, RErr) else
         let r3 := write_manifest r2 n' (Readable m) in
         let dm' := filter (fun d => negb (existsb (fun l => digest_eqb (ldg l) d) (all_layers m))) dm in
-        (delete_unused r3 dm', ROk)
+        (delete_unused r3 (reorder ord dm'), ROk)
         end
     end.
   Definition op_pull := op_pull_gen get_existing (fun n => n).
@@ -401,7 +408,7 @@ Section Ops.
     | OCreate q => op_create s q
     | OCopy a b => op_copy s a b
     | ODelete n => op_delete s n
-    | OPull n sv => op_pull s n sv
+    | OPull n sv ord => op_pull s n sv ord
     | OStartup => op_startup s
     end.
 
@@ -443,7 +450,7 @@ Section Ops.
   Definition op_guard (s : store) (o : op) : bool :=
     match o with
     | OCreate q => create_check s q
-    | OPull _ (Some v) => served_ok v
+    | OPull _ (Some v) _ => served_ok v
     | _ => true
     end.
 
@@ -453,7 +460,7 @@ Section Ops.
     | OCreate q => Some (get_existing (readable_names s) (cr_name q))
     | OCopy _ dst => Some (get_existing (readable_names s) dst)
     | ODelete n => Some (get_existing (readable_names s) n)
-    | OPull n _ => Some (get_existing (readable_names s) n)
+    | OPull n _ _ => Some (get_existing (readable_names s) n)
     | OBlob _ _ | OStartup => None
     end.
 
@@ -464,7 +471,7 @@ Section Ops.
     | OCreate q => op_create_gen get_existing_legacy layer_from_layer_legacy true s q
     | OCopy a b => op_copy_gen get_existing_legacy s a b
     | ODelete n => op_delete_gen get_existing_legacy s n
-    | OPull n sv => op_pull_gen get_existing_legacy short_roundtrip s n sv
+    | OPull n sv ord => op_pull_gen get_existing_legacy short_roundtrip s n sv ord
     | OStartup => op_startup s
     end.
   Definition exec_legacy (s : store) (o : op) : store := rs (fst (op_run_legacy s o)).
